@@ -87,7 +87,9 @@ func (t *pt) walk(f func(n, parent *pt, slot int)) {
 // operand wrappers: prefix operator and postfix form
 type c07Wrap struct{ pre, post string }
 
-var c07Wraps = []c07Wrap{{"", ""}, {"-", ""}, {"!", ""}, {"?", ""}, {"", "()"}, {"", "[0]"}, {"", ".m"}, {"-", "()"}, {"!", ".m"}, {"-", "[0]"}}
+var c07Wraps = []c07Wrap{{"", ""}, {"-", ""}, {"!", ""}, {"?", ""}, {"", "()"}, {"", "[0]"}, {"", ".m"}, {"-", "()"}, {"!", ".m"}, {"-", "[0]"},
+	// runs of different prefix operators: the first written is the outermost
+	{"-!", ""}, {"!-", ""}, {"?-", ""}, {"-?!", ".m"}}
 
 func (w c07Wrap) name() string {
 	if w.pre == "" && w.post == "" {
@@ -152,8 +154,8 @@ func c07Build(ops []string, wraps []int) c07Expr {
 		}
 		w := c07Wraps[wraps[i]]
 		start := len(e.toks)
-		if w.pre != "" {
-			e.toks = append(e.toks, w.pre)
+		for _, pc := range w.pre {
+			e.toks = append(e.toks, string(pc))
 		}
 		e.toks = append(e.toks, c07Names[i])
 		n := &pt{leaf: c07Names[i], lo: len(e.toks) - 1, hi: len(e.toks) - 1}
@@ -168,8 +170,8 @@ func c07Build(ops []string, wraps []int) c07Expr {
 			e.toks = append(e.toks, ".", "m")
 			n = &pt{op: ".", kids: []*pt{n}, lo: n.lo, hi: len(e.toks) - 1}
 		}
-		if w.pre != "" {
-			n = &pt{op: w.pre, kids: []*pt{n}, lo: start, hi: n.hi}
+		for k := len(w.pre) - 1; k >= 0; k-- {
+			n = &pt{op: string(w.pre[k]), kids: []*pt{n}, lo: start + k, hi: n.hi}
 		}
 		operands = append(operands, n)
 	}
@@ -336,7 +338,7 @@ var c07ParenBlocks = []c07Block{{n: 1, single: true}, {n: 2, single: true}, {n: 
 var c07Paren2Blocks = []c07Block{{n: 1}, {n: 2, plain: true}}
 
 const c07MaxGaps = 20  // upper bound of varied gaps of a layout base (checked)
-const c07MaxNodes = 16 // upper bound of nodes of an expected tree (checked)
+const c07MaxNodes = 24 // upper bound of nodes of an expected tree (checked)
 
 // ---------------------------------------------------------------- oracles
 
